@@ -1,20 +1,134 @@
 import CalVerif.Model.BiffStrings
 import CalVerif.Spec.SstEnc
-/-! Helper lemmas for C12 (BIFF8 strings under CONTINUE splits). -/
+/-! Helper lemmas for C12 (BIFF8 strings under CONTINUE splits): byte readers, one packed segment,
+    `Record::skip` over chunked blocks, UTF-16 decoding of a segmented string, one table entry under a layout,
+    the whole table, record framing. The property theorems are in `Props/C12.lean`. -/
 namespace Biff
 
-/-! ### `lay` -/
+theorem hasLen_iff (s : Bytes) (n : Nat) : hasLen s n = decide (n ≤ s.length) := by
+  cases n with
+  | zero => simp [hasLen]
+  | succ n =>
+    simp only [hasLen]
+    by_cases h : n + 1 ≤ s.length
+    · simp [h]; omega
+    · simp [h]; omega
+
+theorem byte_toNat (n : Nat) : (byte n).toNat = n % 256 := by simp [byte]
+
+theorem u16_le16 (n : Nat) (h : n < 65536) (rest : Bytes) : u16 (le16 n ++ rest) = n := by
+  simp [u16, le16, byte]; omega
+
+theorem u32_le32 (n : Nat) (h : n < 4294967296) (rest : Bytes) : u32 (le32 n ++ rest) = n := by
+  simp [u32, le32, byte]; omega
+
+@[simp] theorem le16_length (n : Nat) : (le16 n).length = 2 := rfl
+@[simp] theorem le32_length (n : Nat) : (le32 n).length = 4 := rfl
+
+theorem flagHigh_flagByte (w : Bool) : flagHigh (flagByte w) = w := by cases w <;> decide
+
+/-! ### one segment of characters -/
+
+theorem encUnits_length (w : Bool) (us : List Nat) :
+    (encUnits w us).length = (if w then 2 else 1) * us.length := by
+  cases w
+  · simp [encUnits]
+  · simp only [encUnits, if_true]
+    induction us with
+    | nil => rfl
+    | cons u us ih => simp [List.flatMap_cons, ih]; omega
+
+theorem units16_wide (us : List Nat) (h : ∀ u ∈ us, u < 65536) : units16 (encUnits true us) = us := by
+  simp only [encUnits, if_true]
+  induction us with
+  | nil => rfl
+  | cons u us ih =>
+    have hu : u < 65536 := h u (by simp)
+    have ih := ih (fun v hv => h v (by simp [hv]))
+    simp only [List.flatMap_cons, le16, List.cons_append, List.nil_append, units16, ih, byte_toNat]
+    congr 1; omega
+
+theorem narrow_units (us : List Nat) (h : ∀ u ∈ us, u < 256) : (encUnits false us).map (·.toNat) = us := by
+  simp only [encUnits, Bool.false_eq_true, if_false, List.map_map]
+  induction us with
+  | nil => rfl
+  | cons u us ih =>
+    have hu : u < 256 := h u (by simp)
+    simp only [List.map_cons, Function.comp, byte_toNat]
+    rw [show u % 256 = u by omega]
+    congr 1
+    exact ih (fun v hv => h v (by simp [hv]))
+
+/-- `decode_to` on a fragment that starts with a whole segment `us` (packing `w`): the segment is read
+    exactly when it is the last one owed (`us.length = n`) or the fragment ends with it -/
+theorem decodeTo_segment (w : Bool) (us : List Nat) (tail : Bytes) (n : Nat)
+    (hlt : ∀ u ∈ us, u < 65536) (hp : packOk (us, w)) (hn : us.length ≤ n)
+    (ht : tail = [] ∨ us.length = n) :
+    decodeTo (encUnits w us ++ tail) n w = (us, us.length, (encUnits w us).length) := by
+  have hl := encUnits_length w us
+  cases w
+  · simp only [if_false, Bool.false_eq_true, Nat.one_mul] at hl
+    have hm : min (encUnits false us ++ tail).length n = us.length := by
+      rw [List.length_append, hl]
+      rcases ht with ht | ht
+      · subst ht; simp; omega
+      · omega
+    simp only [decodeTo, Bool.false_eq_true, if_false, hm]
+    rw [← hl, List.take_left', hl]
+    · rw [narrow_units us (hp rfl)]
+    · rfl
+  · simp only [if_true, ] at hl
+    have hm : min ((encUnits true us ++ tail).length / 2) n = us.length := by
+      rw [List.length_append, hl]
+      rcases ht with ht | ht
+      · subst ht; simp; omega
+      · omega
+    simp only [decodeTo, if_true, hm]
+    rw [← hl, List.take_left', hl]
+    · rw [units16_wide us hlt]
+    · rfl
+
+theorem readDbcs_zero (w : Bool) (data : Bytes) (cont : List Bytes) :
+    readDbcs 0 w data cont = .ok ([], ⟨data, cont⟩) := by
+  unfold readDbcs; simp
+
+/-- the last segment owed is read exactly, whatever follows in the fragment -/
+theorem readDbcs_last (w : Bool) (us : List Nat) (tail : Bytes) (cont : List Bytes)
+    (hlt : ∀ u ∈ us, u < 65536) (hp : packOk (us, w)) :
+    readDbcs us.length w (encUnits w us ++ tail) cont = .ok (decodeUtf16 us, ⟨tail, cont⟩) := by
+  by_cases h0 : us.length = 0
+  · have : us = [] := List.eq_nil_of_length_eq_zero h0
+    subst this
+    cases w <;> simp [readDbcs_zero, encUnits, decodeUtf16]
+  · have hd := decodeTo_segment w us tail us.length hlt hp (Nat.le_refl _) (Or.inr rfl)
+    unfold readDbcs
+    simp only [h0, if_false, hd, Nat.sub_self, if_true, List.drop_left']
+
+/-- a segment that ends its fragment while characters are still owed: the reader moves to the next
+    CONTINUE fragment and takes its first byte as the new packing flag -/
+theorem readDbcs_step (w w' : Bool) (us : List Nat) (n : Nat) (d : Bytes) (fs : List Bytes)
+    (hlt : ∀ u ∈ us, u < 65536) (hp : packOk (us, w)) (hn : us.length < n)
+    (t : List Nat) (r : Rd) (hrec : readDbcs (n - us.length) w' d fs = .ok (t, r)) :
+    readDbcs n w (encUnits w us) ((flagByte w' :: d) :: fs) = .ok (decodeUtf16 us ++ t, r) := by
+  have hd := decodeTo_segment w us [] n hlt hp (Nat.le_of_lt hn) (Or.inl rfl)
+  rw [List.append_nil] at hd
+  rw [readDbcs]
+  have h1 : n ≠ 0 := by omega
+  have h2 : n - us.length ≠ 0 := by omega
+  simp only [h1, if_false, hd, h2, flagHigh_flagByte, hrec]
+  rfl
+
+
+
+/-! ### `lay` and `skip` -/
 
 @[simp] theorem lay_nil : lay [] = ([], []) := rfl
 @[simp] theorem lay_b (x : Bytes) (ts : List Tok) : lay (.b x :: ts) = (x ++ (lay ts).1, (lay ts).2) := rfl
 @[simp] theorem lay_cut (ts : List Tok) : lay (.cut :: ts) = ([], (lay ts).1 :: (lay ts).2) := rfl
 
-/-! ### `skip` -/
-
 theorem skip_zero (data : Bytes) (cont : List Bytes) : skip 0 data cont = .ok ⟨data, cont⟩ := by
   cases cont <;> simp [skip]
 
-/-- skipping exactly a prefix of the current fragment -/
 theorem skip_prefix (x tail : Bytes) (cont : List Bytes) :
     skip x.length (x ++ tail) cont = .ok ⟨tail, cont⟩ := by
   by_cases h : x.length = 0
@@ -22,7 +136,6 @@ theorem skip_prefix (x tail : Bytes) (cont : List Bytes) :
     subst this; simpa using skip_zero tail cont
   · cases cont <;> simp [skip, h]
 
-/-- the current fragment is used up and the skip goes on in the next CONTINUE fragment -/
 theorem skip_next (n : Nat) (x f : Bytes) (fs : List Bytes) (h : x.length < n) :
     skip n x (f :: fs) = skip (n - x.length) f fs := by
   rw [skip]
@@ -30,4 +143,574 @@ theorem skip_next (n : Nat) (x f : Bytes) (fs : List Bytes) (h : x.length < n) :
   have h2 : ¬ n ≤ x.length := by omega
   simp [h1, h2]
 
+/-- a block written as `c0`, then one CONTINUE record per further (non-empty) chunk, is skipped exactly:
+    the reader ends on the first byte after the block -/
+theorem skip_chunks (cs : List Bytes) : ∀ (c0 : Bytes) (rest : List Tok), (∀ c ∈ cs, c ≠ []) →
+    skip (c0.length + (cs.map List.length).sum) (lay (.b c0 :: (chunkToks cs ++ rest))).1
+      (lay (.b c0 :: (chunkToks cs ++ rest))).2 = .ok ⟨(lay rest).1, (lay rest).2⟩ := by
+  induction cs with
+  | nil =>
+    intro c0 rest _
+    simp only [List.map_nil, List.sum_nil, Nat.add_zero, chunkToks, List.nil_append, lay_b]
+    exact skip_prefix c0 _ _
+  | cons c1 cs ih =>
+    intro c0 rest hne
+    have h1 : c1 ≠ [] := hne c1 (by simp)
+    have hpos : 0 < c1.length := List.length_pos_iff.mpr h1
+    simp only [chunkToks, List.cons_append, lay_b, lay_cut, List.append_nil, List.map_cons, List.sum_cons]
+    rw [skip_next _ _ _ _ (by omega)]
+    have := ih c1 rest (fun c hc => hne c (by simp [hc]))
+    simp only [lay_b] at this
+    rw [← this]
+    congr 1; omega
+
+/-! ### splitting into pieces -/
+
+theorem splitSizes_ne_nil {α : Type} (l : List α) (ns : List Nat) : splitSizes l ns ≠ [] := by
+  cases ns <;> simp [splitSizes]
+
+theorem splitSizes_flatten {α : Type} (ns : List Nat) : ∀ (l : List α), (splitSizes l ns).flatten = l := by
+  induction ns with
+  | nil => intro l; simp [splitSizes]
+  | cons n ns ih => intro l; simp [splitSizes, ih]
+
+theorem splitSizes_length {α : Type} (ns : List Nat) : ∀ (l : List α), (splitSizes l ns).length = ns.length + 1 := by
+  induction ns with
+  | nil => intro l; simp [splitSizes]
+  | cons n ns ih => intro l; simp [splitSizes, ih]
+
+theorem cons_headD_tail {α : Type} (l : List (List α)) (h : l ≠ []) : l.headD [] :: l.tail = l := by
+  cases l with
+  | nil => exact absurd rfl h
+  | cons a l => rfl
+
+theorem sum_length_flatten {α : Type} (l : List (List α)) : (l.map List.length).sum = l.flatten.length := by
+  exact List.length_flatten.symm
+
+/-- lengths of the pieces add up -/
+theorem splitSizes_total {α : Type} (l : List α) (ns : List Nat) :
+    ((splitSizes l ns).headD []).length + ((splitSizes l ns).tail.map List.length).sum = l.length := by
+  have h := cons_headD_tail (splitSizes l ns) (splitSizes_ne_nil l ns)
+  have h2 := sum_length_flatten (splitSizes l ns)
+  rw [← h, List.map_cons, List.sum_cons, h, splitSizes_flatten] at h2
+  exact h2
+
+/-- skipping a whole block (rgRun or ExtRst) under any chunking whose continuation chunks are non-empty -/
+theorem skip_block (bs : Bytes) (cuts : List Nat) (rest : List Tok) (h : blockOk (some bs) cuts) :
+    skip bs.length (lay (blockToks (some bs) cuts ++ rest)).1 (lay (blockToks (some bs) cuts ++ rest)).2
+      = .ok ⟨(lay rest).1, (lay rest).2⟩ := by
+  have := skip_chunks (splitSizes bs cuts).tail ((splitSizes bs cuts).headD []) rest h
+  rw [splitSizes_total] at this
+  simpa [blockToks] using this
+
+
+/-! ### UTF-16 decoding of a string cut into segments -/
+
+theorem isHigh_false (c : Nat) (h : c < 55296 ∨ 57344 ≤ c) : isHigh c = false := by
+  unfold isHigh
+  rcases h with h | h
+  · have : ¬ (55296 ≤ c) := by omega
+    simp [this]
+  · have : ¬ (c < 56320) := by omega
+    simp [this]
+theorem isLow_false (c : Nat) (h : c < 55296 ∨ 57344 ≤ c) : isLow c = false := by
+  unfold isLow
+  rcases h with h | h
+  · have : ¬ (56320 ≤ c) := by omega
+    simp [this]
+  · have : ¬ (c < 57344) := by omega
+    simp [this]
+theorem isHigh_true (c : Nat) (h : 55296 ≤ c ∧ c < 56320) : isHigh c = true := by
+  unfold isHigh; simp [h.1, h.2]
+theorem isLow_true (c : Nat) (h : 56320 ≤ c ∧ c < 57344) : isLow c = true := by
+  unfold isLow; simp [h.1, h.2]
+
+theorem noPairSplit_nil_left (b : List Nat) : noPairSplit [] b := by simp [noPairSplit]
+
+theorem noPairSplit_tail (u : Nat) (a b : List Nat) (ha : a ≠ []) (h : noPairSplit (u :: a) b) : noPairSplit a b := by
+  unfold noPairSplit at *
+  rwa [List.getLast?_cons_of_ne_nil ha] at h  
+
+theorem decodeUtf16_cons2 (u v : Nat) (rest : List Nat) :
+    decodeUtf16 (u :: v :: rest) =
+      if isHigh u then
+        if isLow v then (0x10000 + (u - 0xD800) * 0x400 + (v - 0xDC00)) :: decodeUtf16 rest
+        else 0xFFFD :: decodeUtf16 (v :: rest)
+      else if isLow u then 0xFFFD :: decodeUtf16 (v :: rest)
+      else u :: decodeUtf16 (v :: rest) := by
+  rw [decodeUtf16]
+
+theorem decodeUtf16_append : ∀ (a b : List Nat), noPairSplit a b →
+    decodeUtf16 (a ++ b) = decodeUtf16 a ++ decodeUtf16 b
+  | [], b, _ => by simp [decodeUtf16]
+  | [u], [], _ => by simp [decodeUtf16]
+  | [u], v :: rest, h => by
+    simp only [noPairSplit, List.getLast?_singleton, Option.map_some, List.head?_cons, Option.some.injEq, not_and] at h
+    rw [List.singleton_append, decodeUtf16_cons2]
+    by_cases hu : isHigh u
+    · have hv : isLow v = false := by simpa using h hu
+      simp [decodeUtf16, hu, hv]
+    · by_cases hl : isLow u <;> simp [decodeUtf16, hu, hl]
+  | u :: v :: rest, b, h => by
+    have h1 : noPairSplit (v :: rest) b := noPairSplit_tail u (v :: rest) b (by simp) h
+    have h2 : noPairSplit rest b := by
+      by_cases hr : rest = []
+      · subst hr; exact noPairSplit_nil_left b
+      · exact noPairSplit_tail v rest b hr h1
+    have ih1 := decodeUtf16_append (v :: rest) b h1
+    have ih2 := decodeUtf16_append rest b h2
+    rw [List.cons_append, List.cons_append, decodeUtf16_cons2, decodeUtf16_cons2, ← List.cons_append, ih1, ih2]
+    by_cases hu : isHigh u <;> by_cases hv : isLow v <;> by_cases hl : isLow u <;> simp [hu, hv, hl]
+
+theorem noPairSplit_append_right (a b c : List Nat) (hb : b ≠ []) (h : noPairSplit a b) : noPairSplit a (b ++ c) := by
+  unfold noPairSplit at *
+  cases b with
+  | nil => exact absurd rfl hb
+  | cons x b => simpa using h
+
+/-- decoding segment by segment = decoding the whole string, when no surrogate pair straddles a break -/
+theorem decodeUtf16_segments (segs : List (List Nat)) : ∀ (s0 : List Nat),
+    pairsKept (s0 :: segs) → (∀ s ∈ segs, s ≠ []) →
+    decodeUtf16 s0 ++ (segs.map decodeUtf16).flatten = decodeUtf16 (s0 ++ segs.flatten) := by
+  induction segs with
+  | nil => intro s0 _ _; simp
+  | cons s1 ss ih =>
+    intro s0 hp hne
+    have h1 : s1 ≠ [] := hne s1 (by simp)
+    obtain ⟨hp0, hp1⟩ := hp
+    rw [List.map_cons, List.flatten_cons, List.flatten_cons, ih s1 hp1 (fun s hs => hne s (by simp [hs]))]
+    rw [decodeUtf16_append s0 _ (noPairSplit_append_right s0 s1 _ h1 hp0)]
+
+
+/-! ### the characters of one string across CONTINUE records -/
+
+/-- Invariant of the split read: `data` = unread rest of the current fragment, `cont` = the fragments still
+    queued, `n` = characters still owed. Reading the first segment `s0` (packing `w0`) and then one CONTINUE
+    record per further segment returns the segments' text in order and stops right after the last character. -/
+theorem readDbcs_segs (segs : List (List Nat × Bool)) : ∀ (s0 : List Nat) (w0 : Bool) (n : Nat) (rest : List Tok),
+    n = s0.length + (segs.map (·.1.length)).sum →
+    (∀ u ∈ s0, u < 65536) → packOk (s0, w0) →
+    (∀ p ∈ segs, (∀ u ∈ p.1, u < 65536) ∧ packOk p ∧ p.1 ≠ []) →
+    readDbcs n w0 (lay (.b (encUnits w0 s0) :: (contToks segs ++ rest))).1
+        (lay (.b (encUnits w0 s0) :: (contToks segs ++ rest))).2
+      = .ok (decodeUtf16 s0 ++ (segs.map (decodeUtf16 ·.1)).flatten, ⟨(lay rest).1, (lay rest).2⟩) := by
+  induction segs with
+  | nil =>
+    intro s0 w0 n rest hn hlt hp _
+    simp only [List.map_nil, List.sum_nil, Nat.add_zero] at hn
+    subst hn
+    simp only [contToks, List.nil_append, lay_b, List.map_nil, List.flatten_nil, List.append_nil]
+    exact readDbcs_last w0 s0 _ _ hlt hp
+  | cons p ss ih =>
+    intro s0 w0 n rest hn hlt hp hall
+    obtain ⟨s1, w1⟩ := p
+    obtain ⟨hlt1, hp1, hne1⟩ := hall (s1, w1) (by simp)
+    have hpos : 0 < s1.length := List.length_pos_iff.mpr hne1
+    simp only [List.map_cons, List.sum_cons] at hn
+    have hrec := ih s1 w1 (n - s0.length) rest (by omega) hlt1 hp1 (fun q hq => hall q (by simp [hq]))
+    simp only [lay_b] at hrec
+    simp only [contToks, List.cons_append, lay_b, lay_cut, List.append_nil, List.map_cons, List.flatten_cons]
+    rw [readDbcs_step w0 w1 s0 n _ _ hlt hp (by omega) _ _ hrec]
+
+
+/-! ### one table entry -/
+
+def optRuns (e : Entry) : Bytes := match e.runs with | some r => le16 (r.length / 4) | none => []
+def optExt (e : Entry) : Bytes := match e.ext with | some x => le32 x.length | none => []
+
+theorem header_eq (e : Entry) (w0 : Bool) (X : Bytes) :
+    header e w0 ++ X = le16 e.units.length ++
+      (byte (headerFlags w0 e.runs.isSome e.ext.isSome) :: (optRuns e ++ (optExt e ++ X))) := by
+  simp only [header, optRuns, optExt, List.append_assoc, List.cons_append, List.nil_append]
+  rfl
+
+theorem drop_le16 (n : Nat) (X : Bytes) : (le16 n ++ X).drop 2 = X := rfl
+theorem drop_le32 (n : Nat) (X : Bytes) : (le32 n ++ X).drop 4 = X := rfl
+theorem drop_le16_le32 (n m : Nat) (X : Bytes) : (le16 n ++ (le32 m ++ X)).drop 6 = X := rfl
+
+theorem header_len3 (e : Entry) (w0 : Bool) (X : Bytes) : ¬ (header e w0 ++ X).length < 3 := by
+  rw [header_eq]; simp [le16]
+
+theorem header_drop3 (e : Entry) (w0 : Bool) (X : Bytes) :
+    (header e w0 ++ X).drop 3 = optRuns e ++ (optExt e ++ X) := by
+  rw [header_eq]; simp [le16]
+
+theorem header_flags (e : Entry) (w0 : Bool) (X : Bytes) :
+    ((header e w0 ++ X).getD 2 0).toNat = headerFlags w0 e.runs.isSome e.ext.isSome := by
+  rw [header_eq]
+  simp only [le16, List.cons_append, List.nil_append, List.getD_cons_succ, List.getD_cons_zero, byte_toNat]
+  cases w0 <;> cases e.runs.isSome <;> cases e.ext.isSome <;> rfl
+
+theorem flags_wide (w r x : Bool) : (headerFlags w r x % 2 == 1) = w := by
+  cases w <;> cases r <;> cases x <;> rfl
+theorem flags_rich (w r x : Bool) : (headerFlags w r x / 8 % 2 == 1) = r := by
+  cases w <;> cases r <;> cases x <;> rfl
+theorem flags_ext (w r x : Bool) : (headerFlags w r x / 4 % 2 == 1) = x := by
+  cases w <;> cases r <;> cases x <;> rfl
+
+/-- the number of bytes `read_rich_extended_string` skips for rgRun / ExtRst -/
+def optLen : Option Bytes → Nat | some r => r.length | none => 0
+def runBytes (e : Entry) : Nat := optLen e.runs
+def extBytes (e : Entry) : Nat := optLen e.ext
+
+/-- parsing the 3..9-byte header: what is left is a `read_dbcs` of `cch` characters followed by the two skips -/
+theorem readRichAt_header (e : Entry) (w0 : Bool) (X : Bytes) (cont : List Bytes)
+    (hc : e.units.length < 65536) (hr : runsLenOk e.runs) (hx : extLenOk e.ext) :
+    readRichAt ⟨header e w0 ++ X, cont⟩ = (do
+      let (s, r) ← readDbcs e.units.length w0 X cont
+      let r ← skip (runBytes e) r.data r.cont
+      let r ← skip (extBytes e) r.data r.cont
+      pure (s, r)) := by
+  unfold readRichAt
+  simp only [header_len3, if_false, header_drop3, header_flags, flags_wide, flags_rich, flags_ext]
+  have hcch : u16 (header e w0 ++ X) = e.units.length := by rw [header_eq]; exact u16_le16 _ hc _
+  rw [hcch]
+  cases hruns : e.runs with
+  | none =>
+    cases hext : e.ext with
+    | none =>
+      simp only [optRuns, optExt, runBytes, extBytes, optLen, hruns, hext, Option.isSome_none, Bool.false_eq_true,
+        Bool.false_and, if_false, List.nil_append, Nat.zero_mul]
+    | some x =>
+      have hx' : x.length < 2147483648 := by simpa [hext, extLenOk] using hx
+      have h2 : u32 (le32 x.length ++ X) = x.length := u32_le32 _ (by omega) _
+      have h3 : ¬ (le32 x.length ++ X).length < 4 := by simp
+      simp only [optRuns, optExt, runBytes, extBytes, optLen, hruns, hext, Option.isSome_none, Option.isSome_some,
+        Bool.false_eq_true, Bool.false_and, if_false, if_true, List.nil_append, Nat.zero_mul, Bool.true_and,
+        decide_eq_true_eq, h3, h2, i32AsUsize, hx', drop_le32]
+  | some r =>
+    have hr' : r.length % 4 = 0 ∧ r.length / 4 < 65536 := by simpa [hruns, runsLenOk] using hr
+    have h4 : r.length / 4 * 4 = r.length := by omega
+    cases hext : e.ext with
+    | none =>
+      have h1 : u16 (le16 (r.length / 4) ++ X) = r.length / 4 := u16_le16 _ hr'.2 _
+      have h3 : ¬ (le16 (r.length / 4) ++ X).length < 2 := by simp
+      simp only [optRuns, optExt, runBytes, extBytes, optLen, hruns, hext, Option.isSome_none, Option.isSome_some,
+        Bool.false_eq_true, Bool.false_and, if_false, if_true, List.nil_append, Bool.true_and,
+        decide_eq_true_eq, h3, h1, h4, drop_le16]
+    | some x =>
+      have hx' : x.length < 2147483648 := by simpa [hext, extLenOk] using hx
+      have h1 : u16 (le16 (r.length / 4) ++ (le32 x.length ++ X)) = r.length / 4 := u16_le16 _ hr'.2 _
+      have h2 : u32 (le32 x.length ++ X) = x.length := u32_le32 _ (by omega) _
+      have h3 : ¬ (le16 (r.length / 4) ++ (le32 x.length ++ X)).length < 2 := by simp
+      have h5 : ¬ (le32 x.length ++ X).length < 4 := by simp
+      simp only [optRuns, optExt, runBytes, extBytes, optLen, hruns, hext, Option.isSome_some,
+        if_false, if_true, Bool.true_and, decide_eq_true_eq, h3, h5, h1, h2, h4, i32AsUsize, hx',
+        drop_le16, drop_le32]
+
+
+theorem skip_blockOpt (block : Option Bytes) (cuts : List Nat) (rest : List Tok) (h : blockOk block cuts) :
+    skip (optLen block)
+      (lay (blockToks block cuts ++ rest)).1 (lay (blockToks block cuts ++ rest)).2
+      = .ok ⟨(lay rest).1, (lay rest).2⟩ := by
+  cases block with
+  | none => simp [blockToks, skip_zero, optLen]
+  | some bs => exact skip_block bs cuts rest h
+
+theorem zip_map_fst {α β : Type} : ∀ (l : List α) (m : List β), l.length = m.length → (l.zip m).map (·.1) = l
+  | [], _, _ => by simp
+  | a :: l, [], h => by simp at h
+  | a :: l, b :: m, h => by
+    simp only [List.zip_cons_cons, List.map_cons]
+    rw [zip_map_fst l m (by simpa using h)]
+
+theorem segments_tail_length (e : Entry) (ly : EntryLayout) :
+    (segments e ly).tail.length = (ly.cuts.map (·.2)).length := by
+  simp [segments, splitSizes_length]
+
+/-- the characters of an entry, read back across its CONTINUE breaks -/
+theorem readDbcs_chars (e : Entry) (ly : EntryLayout) (hok : EntryOk e ly) (rest : List Tok) :
+    readDbcs e.units.length ly.wide0 (lay (charToks e ly ++ rest)).1 (lay (charToks e ly ++ rest)).2
+      = .ok (decodeUtf16 e.units, ⟨(lay rest).1, (lay rest).2⟩) := by
+  have hz := zip_map_fst (segments e ly).tail (ly.cuts.map (·.2)) (segments_tail_length e ly)
+  have hcons := cons_headD_tail (segments e ly) (splitSizes_ne_nil _ _)
+  have hflat : (segments e ly).headD [] ++ (segments e ly).tail.flatten = e.units := by
+    have := splitSizes_flatten (ly.cuts.map (·.1)) e.units
+    unfold segments at hcons ⊢
+    rw [← hcons, List.flatten_cons] at this
+    exact this
+  have hmem : ∀ s ∈ segments e ly, ∀ u ∈ s, u < 65536 := by
+    intro s hs u hu
+    apply hok.unitsLt
+    rw [← hflat, ← List.flatten_cons, hcons]
+    exact List.mem_flatten.mpr ⟨s, hs, hu⟩
+  have hn : e.units.length = ((segments e ly).headD []).length +
+      (((segments e ly).tail.zip (ly.cuts.map (·.2))).map (·.1.length)).sum := by
+    have := splitSizes_total e.units (ly.cuts.map (·.1))
+    rw [← this]
+    congr 2
+    rw [show (fun (x : List Nat × Bool) => x.1.length) = List.length ∘ (·.1) from rfl, ← List.map_map, hz]
+    rfl
+  have h := readDbcs_segs ((segments e ly).tail.zip (ly.cuts.map (·.2))) ((segments e ly).headD []) ly.wide0
+    e.units.length rest hn
+    (fun u hu => by
+      apply hmem _ _ u hu
+      rw [← hcons]; simp)
+    hok.pack0
+    (fun p hp => by
+      have hp1 : p.1 ∈ (segments e ly).tail := by
+        rw [← hz]; exact List.mem_map_of_mem (f := (·.1)) hp
+      refine ⟨fun u hu => hmem p.1 ?_ u hu, hok.packs p hp, hok.segsNonempty p.1 hp1⟩
+      rw [← hcons]; exact List.mem_cons_of_mem _ hp1)
+  unfold charToks
+  rw [List.cons_append, h]
+  congr 2
+  rw [show (fun (x : List Nat × Bool) => decodeUtf16 x.1) = decodeUtf16 ∘ (·.1) from rfl, ← List.map_map, hz]
+  rw [decodeUtf16_segments _ _ (by rw [hcons]; exact hok.pairs) hok.segsNonempty, hflat]
+
+/-- **one entry, any legal layout**: the reader returns the entry's text and stops exactly after the entry
+    (rich-text runs and the extended block skipped, nothing of what follows consumed) -/
+theorem readRichAt_entry (e : Entry) (ly : EntryLayout) (hok : EntryOk e ly) (rest : List Tok) :
+    readRichAt ⟨(lay (entryBody e ly ++ rest)).1, (lay (entryBody e ly ++ rest)).2⟩
+      = .ok (decodeUtf16 e.units, ⟨(lay rest).1, (lay rest).2⟩) := by
+  unfold entryBody
+  rw [List.cons_append, lay_b, readRichAt_header e ly.wide0 _ _ hok.cch hok.runsLen hok.extLen]
+  rw [List.append_assoc, readDbcs_chars e ly hok]
+  simp only [Res.bind_ok]
+  have h1 := skip_blockOpt e.runs ly.runCuts (blockToks e.ext ly.extCuts ++ rest) hok.runsOk
+  have h2 := skip_blockOpt e.ext ly.extCuts rest hok.extOk
+  rw [List.append_assoc]
+  unfold runBytes extBytes
+  rw [h1]
+  simp only [Res.bind_ok]
+  rw [h2]
+  rfl
+
+theorem readRich_entry (e : Entry) (ly : EntryLayout) (hok : EntryOk e ly) (rest : List Tok) :
+    readRich ⟨(lay (entryToks e ly ++ rest)).1, (lay (entryToks e ly ++ rest)).2⟩
+      = .ok (decodeUtf16 e.units, ⟨(lay rest).1, (lay rest).2⟩) := by
+  have hne : (lay (entryBody e ly ++ rest)).1 ≠ [] := by
+    unfold entryBody
+    rw [List.cons_append, lay_b, header_eq]
+    simp [le16]
+  unfold readRich entryToks
+  cases ly.cutBefore
+  · simp only [Bool.false_eq_true, if_false]
+    have : (lay (entryBody e ly ++ rest)).1.isEmpty = false := by simpa using hne
+    simp only [this, Bool.false_eq_true, if_false]
+    exact readRichAt_entry e ly hok rest
+  · simp only [if_true, List.cons_append, lay_cut, List.isEmpty_nil, continueRecord]
+    exact readRichAt_entry e ly hok rest
+
+
+/-! ### the whole table -/
+
+theorem readStrings_table : ∀ (table : List Entry) (lys : List EntryLayout) (rest : List Tok),
+    TableOk table lys →
+    readStrings table.length ⟨(lay (tableToks table lys ++ rest)).1, (lay (tableToks table lys ++ rest)).2⟩
+      = .ok (table.map fun e => decodeUtf16 e.units)
+  | [], [], _, _ => by simp [readStrings]
+  | [], _ :: _, _, h => by simp [TableOk] at h
+  | _ :: _, [], _, h => by simp [TableOk] at h
+  | e :: es, ly :: lys, rest, h => by
+    obtain ⟨he, hes⟩ := h
+    have ih := readStrings_table es lys rest hes
+    simp only [tableToks, List.length_cons, readStrings, List.append_assoc]
+    rw [readRich_entry e ly he]
+    simp only [Res.bind_ok, ih, List.map_cons]
+    rfl
+
+theorem parseSst_encode (cstTotal : Nat) (table : List Entry) (lys : List EntryLayout)
+    (hok : TableOk table lys) (hcount : table.length < 2147483648) (typ : Nat) :
+    parseSst ⟨typ, (lay (.b (le32 cstTotal ++ le32 table.length) :: tableToks table lys)).1,
+        (lay (.b (le32 cstTotal ++ le32 table.length) :: tableToks table lys)).2⟩
+      = .ok (table.map fun e => decodeUtf16 e.units) := by
+  have h := readStrings_table table lys [] hok
+  rw [List.append_nil] at h
+  unfold parseSst
+  simp only [lay_b, List.append_assoc]
+  have h8 : ¬ (le32 cstTotal ++ (le32 table.length ++ (lay (tableToks table lys)).1)).length < 8 := by simp; omega
+  have hd4 : (le32 cstTotal ++ (le32 table.length ++ (lay (tableToks table lys)).1)).drop 4
+      = le32 table.length ++ (lay (tableToks table lys)).1 := rfl
+  have hd8 : (le32 cstTotal ++ (le32 table.length ++ (lay (tableToks table lys)).1)).drop 8
+      = (lay (tableToks table lys)).1 := rfl
+  have hu : u32 (le32 table.length ++ (lay (tableToks table lys)).1) = table.length := u32_le32 _ (by omega) _
+  have hn : ¬ 2147483648 ≤ table.length := by omega
+  simp only [h8, if_false, hd4, hd8, hu, hn, h]
+
+/-! ### record framing -/
+
+theorem recHdr_length (t n : Nat) : (recHdr t n).length = 4 := rfl
+
+theorem frameConts_length_ge (conts : List Bytes) : 4 * conts.length ≤ (frameConts conts).length := by
+  induction conts with
+  | nil => simp [frameConts]
+  | cons f fs ih => simp [frameConts, recHdr_length]; omega
+
+theorem u16_recHdr (t n : Nat) (ht : t < 65536) (X : Bytes) : u16 (recHdr t n ++ X) = t := by
+  unfold recHdr; rw [List.append_assoc]; exact u16_le16 t ht _
+
+theorem u16_recHdr_len (t n : Nat) (hn : n < 65536) (X : Bytes) : u16 ((recHdr t n ++ X).drop 2) = n := by
+  have : (recHdr t n ++ X).drop 2 = le16 n ++ X := rfl
+  rw [this]; exact u16_le16 n hn _
+
+/-- what follows the last CONTINUE record is not a CONTINUE record -/
+def notCont (rest : Bytes) : Prop := ¬ (hasLen rest 5 = true ∧ u16 rest = 0x3C)
+
+theorem gather_frameConts (conts : List Bytes) : ∀ (rest : Bytes) (fuel : Nat),
+    (∀ f ∈ conts, f ≠ [] ∧ f.length < 65536) → notCont rest → conts.length < fuel →
+    gather fuel (frameConts conts ++ rest) = .ok (conts, rest) := by
+  induction conts with
+  | nil =>
+    intro rest fuel _ hrest hf
+    obtain ⟨k, rfl⟩ : ∃ k, fuel = k + 1 := ⟨fuel - 1, by simp at hf; omega⟩
+    unfold notCont at hrest
+    simp only [frameConts, List.nil_append, gather]
+    by_cases h5 : hasLen rest 5 = true
+    · have : ¬ u16 rest = 0x3C := fun h => hrest ⟨h5, h⟩
+      simp [h5, this]
+    · simp [h5]
+  | cons f fs ih =>
+    intro rest fuel hall hrest hf
+    obtain ⟨k, rfl⟩ : ∃ k, fuel = k + 1 := ⟨fuel - 1, by simp at hf; omega⟩
+    obtain ⟨hne, hlen⟩ := hall f (by simp)
+    have hpos : 0 < f.length := List.length_pos_iff.mpr hne
+    have ih := ih rest k (fun g hg => hall g (by simp [hg])) hrest (by simpa using hf)
+    simp only [frameConts, List.append_assoc, gather]
+    have e1 : hasLen (recHdr 60 f.length ++ (f ++ (frameConts fs ++ rest))) 5 = true := by
+      rw [hasLen_iff]; simp [recHdr_length]; omega
+    have e2 : u16 (recHdr 60 f.length ++ (f ++ (frameConts fs ++ rest))) = 0x3C := u16_recHdr _ _ (by omega) _
+    have e3 : u16 ((recHdr 60 f.length ++ (f ++ (frameConts fs ++ rest))).drop 2) = f.length := u16_recHdr_len _ _ hlen _
+    have e4 : hasLen (recHdr 60 f.length ++ (f ++ (frameConts fs ++ rest))) (f.length + 4) = true := by
+      rw [hasLen_iff]; simp [recHdr_length]; omega
+    have e5 : (recHdr 60 f.length ++ (f ++ (frameConts fs ++ rest))).drop (f.length + 4) = frameConts fs ++ rest := by
+      rw [← List.append_assoc, ← List.append_assoc, List.append_assoc (recHdr 60 f.length ++ f)]
+      apply List.drop_left'
+      simp [recHdr_length]; omega
+    have e6 : ((recHdr 60 f.length ++ (f ++ (frameConts fs ++ rest))).take (f.length + 4)).drop 4 = f := by
+      rw [← List.append_assoc, List.take_left' (by simp [recHdr_length]; omega)]
+      exact List.drop_left' (recHdr_length _ _)
+    simp only [e1, e2, e3, e4, e5, e6, ih, Bool.true_and, decide_true, if_true, Bool.not_true, Bool.false_eq_true, if_false,
+      Res.bind_ok]
+    rfl
+
+/-- **framing round trip**: `RecordIter` gives back a record's payload and its CONTINUE fragments -/
+theorem nextRecord_frameRec (typ : Nat) (d : Bytes) (conts : List Bytes) (rest : Bytes)
+    (ht : typ < 65536) (hd : d.length < 65536) (hall : ∀ f ∈ conts, f ≠ [] ∧ f.length < 65536)
+    (hrest : notCont rest) :
+    nextRecord (frameRec typ d conts ++ rest) = some (.ok (⟨typ, d, conts⟩, rest)) := by
+  unfold nextRecord frameRec
+  simp only [List.append_assoc]
+  have e1 : hasLen (recHdr typ d.length ++ (d ++ (frameConts conts ++ rest))) 4 = true := by
+    rw [hasLen_iff]; simp [recHdr_length]
+  have e2 : u16 (recHdr typ d.length ++ (d ++ (frameConts conts ++ rest))) = typ := u16_recHdr _ _ ht _
+  have e3 : u16 ((recHdr typ d.length ++ (d ++ (frameConts conts ++ rest))).drop 2) = d.length := u16_recHdr_len _ _ hd _
+  have e4 : hasLen (recHdr typ d.length ++ (d ++ (frameConts conts ++ rest))) (d.length + 4) = true := by
+    rw [hasLen_iff]; simp [recHdr_length]; omega
+  have e5 : (recHdr typ d.length ++ (d ++ (frameConts conts ++ rest))).drop (d.length + 4) = frameConts conts ++ rest := by
+    rw [← List.append_assoc]
+    apply List.drop_left'
+    simp [recHdr_length]; omega
+  have e6 : ((recHdr typ d.length ++ (d ++ (frameConts conts ++ rest))).take (d.length + 4)).drop 4 = d := by
+    rw [← List.append_assoc, List.take_left' (by simp [recHdr_length]; omega)]
+    exact List.drop_left' (recHdr_length _ _)
+  have hfuel : conts.length < (frameConts conts ++ rest).length / 4 + 1 := by
+    have := frameConts_length_ge conts
+    rw [List.length_append]; omega
+  simp only [e1, e3, e4, e5, e6, e2, Bool.not_true, Bool.false_eq_true, if_false,
+    gather_frameConts conts rest _ hall hrest hfuel, Res.bind_ok]
+  rfl
+
+
+/-! ### no CONTINUE record of an encoded table is empty -/
+
+/-- every `cut` is directly followed by a non-empty payload -/
+def goodToks : List Tok → Prop
+  | [] => True
+  | .b _ :: ts => goodToks ts
+  | .cut :: .b x :: ts => x ≠ [] ∧ goodToks ts
+  | .cut :: _ => False
+
+theorem goodToks_append : ∀ (a b : List Tok), goodToks a → goodToks b → goodToks (a ++ b)
+  | [], b, _, hb => hb
+  | .b _ :: ts, b, ha, hb => by
+    simp only [List.cons_append, goodToks] at ha ⊢
+    exact goodToks_append ts b ha hb
+  | [.cut], _, ha, _ => by simp [goodToks] at ha
+  | .cut :: .cut :: _, _, ha, _ => by simp [goodToks] at ha
+  | .cut :: .b x :: ts, b, ha, hb => by
+    simp only [List.cons_append, goodToks] at ha ⊢
+    exact ⟨ha.1, goodToks_append ts b ha.2 hb⟩
+
+theorem lay_good : ∀ (ts : List Tok), goodToks ts → ∀ f ∈ (lay ts).2, f ≠ []
+  | [], _, f, hf => by simp at hf
+  | .b _ :: ts, h, f, hf => by
+    simp only [lay_b] at hf
+    exact lay_good ts (by simpa [goodToks] using h) f hf
+  | [.cut], h, _, _ => by simp [goodToks] at h
+  | .cut :: .cut :: _, h, _, _ => by simp [goodToks] at h
+  | .cut :: .b x :: ts, h, f, hf => by
+    simp only [goodToks] at h
+    simp only [lay_cut, lay_b, List.mem_cons] at hf
+    rcases hf with hf | hf
+    · subst hf; simp [h.1]
+    · exact lay_good ts h.2 f hf
+
+theorem goodToks_contToks : ∀ (segs : List (List Nat × Bool)), goodToks (contToks segs)
+  | [] => trivial
+  | (s, w) :: rest => by
+    simp only [contToks, goodToks]
+    exact ⟨by simp, goodToks_contToks rest⟩
+
+theorem goodToks_chunkToks : ∀ (cs : List Bytes), (∀ c ∈ cs, c ≠ []) → goodToks (chunkToks cs)
+  | [], _ => trivial
+  | c :: cs, h => by
+    simp only [chunkToks, goodToks]
+    exact ⟨h c (by simp), goodToks_chunkToks cs (fun x hx => h x (by simp [hx]))⟩
+
+theorem goodToks_blockToks (block : Option Bytes) (cuts : List Nat) (h : blockOk block cuts) :
+    goodToks (blockToks block cuts) := by
+  cases block with
+  | none => trivial
+  | some bs => simp only [blockToks, goodToks]; exact goodToks_chunkToks _ h
+
+theorem header_ne_nil (e : Entry) (w : Bool) : header e w ≠ [] := by
+  have := header_eq e w []
+  rw [List.append_nil] at this
+  rw [this]; simp [le16]
+
+theorem goodToks_entryToks (e : Entry) (ly : EntryLayout) (hok : EntryOk e ly) : goodToks (entryToks e ly) := by
+  have hb : goodToks (entryBody e ly) := by
+    unfold entryBody charToks
+    simp only [goodToks, List.cons_append]
+    exact goodToks_append _ _ (goodToks_contToks _)
+      (goodToks_append _ _ (goodToks_blockToks _ _ hok.runsOk) (goodToks_blockToks _ _ hok.extOk))
+  unfold entryToks
+  cases ly.cutBefore
+  · simpa using hb
+  · simp only [if_true]
+    unfold entryBody at hb ⊢
+    simp only [goodToks] at hb ⊢
+    exact ⟨header_ne_nil e _, hb⟩
+
+theorem goodToks_tableToks : ∀ (table : List Entry) (lys : List EntryLayout), TableOk table lys →
+    goodToks (tableToks table lys)
+  | [], [], _ => trivial
+  | [], _ :: _, h => by simp [TableOk] at h
+  | _ :: _, [], h => by simp [TableOk] at h
+  | e :: es, ly :: lys, h => by
+    simp only [tableToks]
+    exact goodToks_append _ _ (goodToks_entryToks e ly h.1) (goodToks_tableToks es lys h.2)
+
+/-! ### whole stream -/
+
+theorem notCont_nil : notCont [] := by simp [notCont, hasLen]
+
+theorem sstFromStream_encode (cstTotal : Nat) (table : List Entry) (lys : List EntryLayout)
+    (hok : TableOk table lys) (hcount : table.length < 2147483648)
+    (hsizes : ∀ f ∈ encodeSst cstTotal table lys, f.length < 65536) (fuel : Nat) :
+    sstFromStream (fuel + 1) (frameSst (encodeSst cstTotal table lys))
+      = .ok (table.map fun e => decodeUtf16 e.units) := by
+  have hgood : goodToks (.b (le32 cstTotal ++ le32 table.length) :: tableToks table lys) := by
+    simp only [goodToks]; exact goodToks_tableToks table lys hok
+  have hne := lay_good _ hgood
+  unfold encodeSst at hsizes ⊢
+  simp only [frameSst]
+  have hnr := nextRecord_frameRec 0xFC
+    (lay (.b (le32 cstTotal ++ le32 table.length) :: tableToks table lys)).1
+    (lay (.b (le32 cstTotal ++ le32 table.length) :: tableToks table lys)).2 [] (by omega)
+    (hsizes _ (List.mem_cons_self ..)) (fun f hf => ⟨hne f hf, hsizes f (List.mem_cons_of_mem _ hf)⟩) notCont_nil
+  rw [List.append_nil] at hnr
+  simp only [sstFromStream, hnr, Res.bind_ok, if_true]
+  exact parseSst_encode cstTotal table lys hok hcount 0xFC
 end Biff
